@@ -131,7 +131,7 @@ def proc_snapshot(pid):
                 s = h.read()
             if s[s.rindex(")") + 2:].split()[0] not in ("S", "I"):
                 sleeping = False
-        children = False  # a live (non zombie) child: an unreaped zombie is what a deadlocked SIGCHLD handler leaves
+        children = False  # a live child = neither a zombie (what a deadlocked SIGCHLD handler leaves) nor an un-exec'ed fork
         for t in os.listdir("/proc/%d/task" % pid):
             try:
                 with open("/proc/%d/task/%s/children" % (pid, t)) as h:
@@ -142,7 +142,10 @@ def proc_snapshot(pid):
                 try:
                     with open("/proc/%s/stat" % k) as h:
                         ks = h.read()
-                    if ks[ks.rindex(")") + 2:].split()[0] != "Z":
+                    comm = ks[ks.index("(") + 1:ks.rindex(")")]
+                    # a forked copy that has not exec'ed yet (still named tfel-check) waits for its father's "OK" on
+                    # a pipe: it is part of a deadlocked father, not a running command
+                    if ks[ks.rindex(")") + 2:].split()[0] != "Z" and comm != "tfel-check":
                         children = True
                 except (OSError, ValueError):
                     pass
